@@ -64,7 +64,7 @@ def unit_attribute_existence():
 def unit_auto_rows():
     def make(ctx):
         out = []
-        for suffix, want in ((".ods", "ods_rows"), (".ODS", "ods_rows"), (".xls", "excel_rows"), (".xlsx", "excel_rows"), (".csv", "delimited_rows"), ("", "delimited_rows")):
+        for suffix, want in ((".ods", "ods_rows"), (".ODS", "ods_rows"), (".Ods", "ods_rows"), (".xls", "excel_rows"), (".xlsx", "excel_rows"), (".XLSX", "excel_rows"), (".Xls", "excel_rows"), (".csv", "delimited_rows"), (".CSV", "delimited_rows"), ("", "delimited_rows")):
             def setup(ex, st, suffix=suffix):
                 st.frames[-1].env["source"] = "some/folder/cid" + suffix; st.ghost.update({"called": None})
             def rec(name):
@@ -128,7 +128,7 @@ def unit_storage_sweep():
                              describe=lambda f: {"cid_format": f}, function="interface.Cid + rowio.auto_rows", unit="C17.storage", props=["C17"]))
             # (2) the same table stored three ways gets the same verdicts and values
             good = ["17", "abc", "a", "1.5", "31.12.2020", "ab1", "ab1", "ab", "Krak\u00f3w"]      # adjacent equal cells: stored as column runs by the ODF encoder
-            variants = [("id", 0, ["x", "123456", "-1", "", "17 "]), ("name", 1, ["toolong", ""]), ("kind", 2, ["c", "A", ""]), ("amount", 3, ["100.5", "abc", "", "NaN", "1,5"]), ("born", 4, ["31.02.2020", "", "2020-12-31"]), ("code", 5, ["b", "", " ab1"]), ("ab", 7, ["cd", "ef", " ab"])]
+            variants = [("id", 0, ["x", "123456", "-1", "", "17 "]), ("name", 1, ["toolong", "", "2.0", "v1.0"]), ("kind", 2, ["c", "A", ""]), ("amount", 3, ["100.5", "abc", "", "NaN", "1,5"]), ("born", 4, ["31.02.2020", "", "2020-12-31"]), ("code", 5, ["b", "", " ab1"]), ("ab", 7, ["cd", "ef", " ab"])]
             def tables():
                 yield [list(good)]
                 for _, col, vals in variants:
@@ -150,7 +150,7 @@ def unit_storage_sweep():
                 if not (outs["delimited"] == outs["ods"] == outs["excel"]): return {"expected": "same verdicts: %r" % (outs["delimited"],), "observed": {k: v for k, v in outs.items() if v != outs["delimited"]}}
                 return None
             res.append(sweep("C17/storage/the same table stored as delimited text, ODS and Excel gets the same verdicts", tables(), data_check, "bounded",
-                             "tables of 1-2 rows: an accepted row with one cell replaced by each of 20 rejected / empty variants, a duplicate key, a short row x CIDs differing only in Format x storage {csv, ods, xlsx} (text cells)",
+                             "tables of 1-2 rows: an accepted row with one cell replaced by each of 22 rejected / empty / number-like text variants, a duplicate key, a short row x CIDs differing only in Format x storage {csv, ods, xlsx} (text cells)",
                              describe=lambda t: {"table": t}, function="validio.rows over the three readers", unit="C17.storage", props=["C17"]))
             # (3) the Sheet property selects the same sheet for ODS and Excel
             def sheet_check(k):
